@@ -588,7 +588,7 @@ func init() {
 	engine.Register(engine.Spec[Case]{
 		ID:    "C12",
 		Level: "exploration",
-		Rule: "14 base programs with 3-8 lint errors (several rules, nested in if/else/bare blocks and switch cases, first/last statement, two subroutines, after the covered region, diagnostics reported late such as unused locals); every placement of one directive (next-line before every statement incl. compound ones, trailing on every simple statement, start/end around every contiguous range of every block with the end before the next statement or as the last comment of the block) x {no rule list, a covered rule, an uncovered rule, two rules} x {//, #, /* */}; every pair of placements (thorough: every triple); two (thorough: three) next-line comments stacked in front of one statement with different rule lists; oracle: diagnostics(with) = diagnostics(base) minus those located on covered lines (and of a listed rule), compared as multisets of (severity, rule, message); non-trivial = at least one diagnostic is covered; distinct = distinct program text Round 3: next-line and trailing directives on break; / fallthrough;, a program with the same unused local name in two subroutines and two branches. Round 4: every single-directive case again with CRLF line ends and with a blank and a tab behind the directive text.",
+		Rule: "16 base programs with 3-8 lint errors (several rules, nested in if/else/bare blocks and switch cases, first/last statement, two subroutines, after the covered region, diagnostics reported late such as unused locals); every placement of one directive (next-line before every statement incl. compound ones, trailing on every simple statement, start/end around every contiguous range of every block with the end before the next statement or as the last comment of the block) x {no rule list, a covered rule, an uncovered rule, two rules} x {//, #, /* */}; every pair of placements (thorough: every triple); two (thorough: three) next-line comments stacked in front of one statement with different rule lists; oracle: diagnostics(with) = diagnostics(base) minus those located on covered lines (and of a listed rule), compared as multisets of (severity, rule, message); non-trivial = at least one diagnostic is covered; distinct = distinct program text Round 3: next-line and trailing directives on break; / fallthrough;, a program with the same unused local name in two subroutines and two branches. Round 4: every single-directive case again with CRLF line ends and with a blank and a tab behind the directive text.",
 		Gen:  gen12,
 		Key:  func(c Case) string { return c.With + "\x00" + c.Style },
 		Run:  run,
